@@ -409,6 +409,11 @@ func nilCompare(x, y *Val) (equal bool, known bool) {
 
 func mkLen(x *Val) *Val {
 	switch x.Op {
+	case "unknown":
+		// what a short Next handed back: its length is that read's short count
+		if x.Name == "partial-read" && len(x.Args) == 1 && x.Args[0].Op == "short" {
+			return x.Args[0]
+		}
 	case "makeslice":
 		return x.Args[0]
 	case "const":
